@@ -135,24 +135,30 @@ def run(p: Program, rep: Report, tier: str) -> None:
     if ln is None or ne is None:
         raise AnalysisError("MultipartDecoder.last_newline/next_event vanished")
     rep.analysed(ln.fq, ne.fq)
-    unbounded = []
-    for c in calls_in(ln):
-        if isinstance(c.func, ast.Attribute) and c.func.attr in ("rindex", "rfind") and ast.unparse(c.func.value) == "self.buffer":
-            if len(c.args) < 2:
-                unbounded.append(c)
-    clamp = False
-    for fnn in (ln, ne):
-        for c in calls_in(fnn):
-            if isinstance(c.func, ast.Name) and c.func.id == "max" and "len(self.buffer)" in ast.unparse(c):
-                clamp = True
-    tail = any(isinstance(n, ast.Subscript) and ast.unparse(n.value) == "self.buffer" and isinstance(n.slice, ast.Slice) and n.slice.lower is not None and "len(self.buffer)" in ast.unparse(n.slice.lower)
-               for n in ast.walk(ln.node))
-    if unbounded and not clamp and not tail:
-        rep.violation("R15.4", construct(ln, text="rindex over the whole buffer, no clamp"), where(ln, unbounded[0]),
-                      "the hold-back start is the earliest of the last CR / last LF of the WHOLE buffer with no lower bound: a part that starts with CR (or LF) and contains no later line break is "
-                      "kept in memory entirely and re-scanned on every chunk (bytes held are not bounded by chunk + delimiter length + constant)")
-    elif not unbounded or clamp or tail:
-        rep.ok("R15.4", "the hold-back search is limited to a tail of the buffer / clamped")
+    from .c01 import _clamped
+    from .mp_common import data_branch_emissions
+    from ..collect import callee_is
+
+    BUF = ("attr", ("param", "self"), "buffer")
+    ems, npaths = data_branch_emissions(p)
+    rep.cfg_paths += npaths
+    n_hold = 0
+    for pa, emit_bound, del_bound, more, no_boundary, node, fnn, has_del in ems:
+        if not more or not no_boundary or emit_bound is None:
+            continue
+        n_hold += 1
+        cl = _clamped(emit_bound, BUF)
+        tail_search = any(t[0] == "call" and t[1][0] == "attr" and t[1][2] in ("rindex", "rfind") and len(t[2]) >= 2 for t in subterms(emit_bound))
+        if cl is not None and cl[1]:
+            rep.ok("R15.4", f"no boundary buffered: hold-back start is max(last_newline(), len(buffer) - len(boundary) - {cl[0]}): at most len(boundary) + {cl[0]} bytes stay buffered")
+        elif tail_search:
+            rep.ok("R15.4", "no boundary buffered: the line-break search is restricted to a tail of the buffer")
+        else:
+            rep.violation("R15.4", construct(ne, text=f"unbounded hold-back: {show(emit_bound)[:70]}"), where(ne, node),
+                          "while no boundary is buffered, a path emits data only up to the earliest of the last CR / last LF of the WHOLE buffer with no lower bound: a part that starts with CR (or LF) and has no later "
+                          "line break is kept in memory entirely and re-scanned on every chunk (bytes held are not bounded by chunk + delimiter length + constant)", path_facts=pa.fact_text()[:6])
+    if n_hold == 0:
+        rep.undecide("R15.4", "no hold-back emission path found in the DATA branch")
     rep.require_instances("R15.4", 1)
 
 
